@@ -1,5 +1,5 @@
 (* Props/C20.v — property C20: repr never fails and never misstates shape, dtype or data.
-   Statements only; every proof is [exact <lemma>] (refutations: a concrete witness).
+   Statements only; every proof is [exact <lemma>] (the refutation: a concrete witness).
 
    [repr_vector glob v] / [repr_table glob t] (Model/Repr.v) return [Exn] when display.py would
    raise, else the structured repr.  [glob] is the global row budget (set_repr_rows), [trepr_rows]
@@ -7,7 +7,12 @@
    MAX_HEAD_COLS at each end.  Spec/Repr.v says what must be shown ([expected_rows],
    [expected_cols], [shown_types], [listed_types], [shown_names]) and states the two invariants the
    formatter relies on: C03 (elements belong to the column's dtype: [well_typed_vec]) and C02
-   (tables are rectangular). *)
+   (tables are rectangular).
+
+   Since display.py marks the row gap and the hidden columns with private objects compared by
+   identity, the statements below range over EVERY value and EVERY name: elements that are
+   themselves serif Vectors ([VVector _]), cells equal to the string '...' ([VStr true]) and
+   columns named '...' ([NStr false true]) need no side condition any more. *)
 From Coq Require Import List Bool Arith ZArith.
 From Serif Require Import Base.PyVal Model.Repr Spec.Repr Proofs.Repr.
 Import ListNotations.
@@ -21,23 +26,21 @@ Definition C20_repr_total_statement : Prop :=
   (forall glob t, rectangular t -> (forall c, In c (tcols t) -> well_typed_vec c) ->
                   repr_table glob t <> Exn).
 
-(* It is FALSE of the code (NEW-C20-1): an element that is itself a serif Vector makes
-   `v == '...'` elementwise and the truth value of the result raises. *)
+(* It is still FALSE of the code (NEW-C20-3), on one family of inputs: a FLOAT column may hold
+   ints (Vector([1.5, 10**400]) is a legal <float> vector), and a shown int beyond the float range
+   is formatted with f"{v:.1f}", which converts it with float(v): OverflowError. *)
 Theorem C20_repr_total_statement_refuted : ~ C20_repr_total_statement.
-Proof.
-  intros [H _].
-  apply (H 12%Z (mkVec None (Some (mkD (KOther 20) false)) [Some VVector; Some VVector])).
-  - intros s _. exact I.
-  - reflexivity.
-Qed.
+Proof. exact (fun H => proj1 H 12%Z huge_in_float huge_in_float_well_typed huge_in_float_raises). Qed.
 Print Assumptions C20_repr_total_statement_refuted.
 
-(* What holds: with no Vector among the elements, repr never raises — for NaN, +-inf, None,
-   empty, any length, any width, any names (str or not), any budget (negative, zero, odd). *)
+(* What holds — the only side condition left is [float_ints_in_range] (a float column holds no
+   int beyond the float range): repr never raises for NaN, +-inf, None, nested Vectors, cells
+   equal to '...', empty, any length, any width, any names (str or not, '...' included), any
+   budget (negative, zero, odd). *)
 Theorem C20_repr_total_partial :
-  (forall glob v, well_typed_vec v -> no_vector_elements v -> repr_vector glob v <> Exn) /\
+  (forall glob v, well_typed_vec v -> float_ints_in_range v -> repr_vector glob v <> Exn) /\
   (forall glob t, rectangular t ->
-                  (forall c, In c (tcols t) -> well_typed_vec c /\ no_vector_elements c) ->
+                  (forall c, In c (tcols t) -> well_typed_vec c /\ float_ints_in_range c) ->
                   repr_table glob t <> Exn).
 Proof. exact (conj vector_total table_total). Qed.
 Print Assumptions C20_repr_total_partial.
@@ -86,36 +89,23 @@ Print Assumptions C20_footer_truthful_table.
 (* ------------------------------------------------------------------ preview *)
 
 (* The full statement: the body shows exactly the first and last [half] rows around one
-   ellipsis when the data is longer than 2 * half, and every row otherwise. *)
+   ellipsis when the data is longer than 2 * half, and every row otherwise — for every value
+   (a cell equal to '...' is a row like any other) and every budget, incl. negative, 0, 1, odd. *)
 Definition C20_preview_exact_statement : Prop :=
   forall glob v hdr body count dt,
     repr_vector glob v = Ret (VRLines hdr body count dt) ->
     map row_of body = expected_rows (half glob) (List.length (vdata v)).
 
-(* FALSE of the code: a data cell equal to the string '...' takes the marker's branch
-   (`if v == '...'`) and is printed as the marker — in an object column without its quotes. *)
-Theorem C20_preview_exact_statement_refuted : ~ C20_preview_exact_statement.
-Proof.
-  intros H.
-  specialize (H 12%Z (mkVec None (Some (mkD KObject false)) [Some VIntLike; Some (VStr true)])
-                false [IRow 0 FmtStr; IEll] 2 (mkD KObject false) eq_refl).
-  discriminate H.
-Qed.
-Print Assumptions C20_preview_exact_statement_refuted.
-
-(* What holds: when no cell is the string '...' — for every budget, incl. negative, 0, 1, odd *)
-Theorem C20_preview_exact_vector_partial : forall glob v hdr body count dt,
-  repr_vector glob v = Ret (VRLines hdr body count dt) -> no_dots_elements v ->
-  map row_of body = expected_rows (half glob) (List.length (vdata v)).
+Theorem C20_preview_exact_vector : C20_preview_exact_statement.
 Proof. exact vector_preview. Qed.
-Print Assumptions C20_preview_exact_vector_partial.
+Print Assumptions C20_preview_exact_vector.
 
 (* tables: one body column per column of the column budget (the "..." column in the middle when
    wider than 2 * MAX_HEAD_COLS), each showing exactly the expected rows under the budget in
    force (the per-table override when set, else the global one) *)
-Theorem C20_preview_exact_table_partial : forall glob t disp types body fr fc ft,
+Theorem C20_preview_exact_table : forall glob t disp types body fr fc ft,
   repr_table glob t = Ret (TRTable disp types body fr fc ft) ->
-  rectangular t -> (forall c, In c (tcols t) -> no_dots_elements c) ->
+  rectangular t ->
   exists ls,
     body = (if cols_truncated (t_ncols t)
             then insert_at MAX_HEAD_COLS
@@ -125,7 +115,7 @@ Theorem C20_preview_exact_table_partial : forall glob t disp types body fr fc ft
     List.length ls = List.length (expected_cols (t_ncols t)) /\
     Forall (fun l => map row_of l = expected_rows (table_half glob t) (t_nrows t)) ls.
 Proof. exact table_preview. Qed.
-Print Assumptions C20_preview_exact_table_partial.
+Print Assumptions C20_preview_exact_table.
 
 (* what the budget means: never more than `limit` rows are shown; data longer than the limit is
    cut; data shorter than the limit is shown whole; set_repr_rows(None) restores 12 = 6 + 6 *)
@@ -145,8 +135,9 @@ Theorem C20_headers_are_stored_names_vector : forall glob v hdr body count dt,
 Proof. exact vector_header. Qed.
 Print Assumptions C20_headers_are_stored_names_vector.
 
-(* The full statement for tables: the row of names shows the stored name of every shown column,
-   and is left out only when no shown column has a name to show. *)
+(* The full statement for tables: the row of names shows the stored name of every shown column
+   (whatever its text: a column named '...' is a name like any other), and is left out only when
+   no shown column has a name to show. *)
 Definition C20_headers_statement : Prop :=
   forall glob t disp types body fr fc ft,
     repr_table glob t = Ret (TRTable disp types body fr fc ft) ->
@@ -155,34 +146,17 @@ Definition C20_headers_statement : Prop :=
     | None => forall j, In j (expected_cols (t_ncols t)) -> ~ has_shown_name (col t j)
     end.
 
-(* FALSE of the code (NEW-C20-2): a column NAMED '...' is taken for the hidden-columns cell *)
-Theorem C20_headers_statement_refuted : ~ C20_headers_statement.
-Proof.
-  intros H.
-  specialize (H 12%Z (mkTbl [mkVec (Some (NStr false true)) (Some (mkD KInt false)) [Some VIntLike]] None)
-                None None [CItems [IRow 0 FmtStr]] 1 1 (FOne (mkD KInt false)) eq_refl 0 (or_introl eq_refl)).
-  apply H. exists (NStr false true). split; reflexivity.
-Qed.
-Print Assumptions C20_headers_statement_refuted.
-
-(* What holds: when no shown column is named '...' *)
-Theorem C20_headers_are_stored_names_table_partial : forall glob t disp types body fr fc ft,
-  repr_table glob t = Ret (TRTable disp types body fr fc ft) ->
-  (forall j, In j (expected_cols (t_ncols t)) -> name_not_dots (col t j)) ->
-  match disp with
-  | Some row => row = shown_names t
-  | None => forall j, In j (expected_cols (t_ncols t)) -> ~ has_shown_name (col t j)
-  end.
+Theorem C20_headers_are_stored_names_table : C20_headers_statement.
 Proof. exact table_headers. Qed.
-Print Assumptions C20_headers_are_stored_names_table_partial.
+Print Assumptions C20_headers_are_stored_names_table.
 
 (* ------------------------------------------------------------------ non-vacuity *)
 
 Example C20_example_vector :
   let f x := Some (VFloat x) in
   let v := mkVec (Some (NNonStr false false)) (Some (mkD KFloat true))
-                 [f (FFinite true); f FNan; None; f FPosInf; f (FFinite false); f FNegInf; Some VIntLike] in
-  well_typed_vec v /\ no_vector_elements v /\
+                 [f (FFinite true); f FNan; None; f FPosInf; f (FFinite false); f FNegInf; Some (VIntLike false)] in
+  well_typed_vec v /\ float_ints_in_range v /\
   repr_vector 5%Z v =
     Ret (VRLines true [IRow 0 FmtFix1; IRow 1 FmtG; IEll; IRow 5 FmtG; IRow 6 FmtFix1] 7 (mkD KFloat true)) /\
   repr_vector 1%Z v = Ret (VRLines true [IEll] 7 (mkD KFloat true)) /\
@@ -192,12 +166,31 @@ Proof.
   cbv zeta. split; [|split].
   - intros s Hs. simpl in Hs. unfold fits. simpl.
     repeat (destruct Hs as [Hs|Hs]; [inversion Hs; exact I|]). destruct Hs.
-  - intros Hs. simpl in Hs. repeat (destruct Hs as [Hs|Hs]; [discriminate|]). destruct Hs.
+  - intros _ Hs. simpl in Hs. repeat (destruct Hs as [Hs|Hs]; [discriminate|]). destruct Hs.
   - vm_compute. repeat split.
 Qed.
 
+(* elements that are themselves serif Vectors, and a cell equal to the string '...' (quoted by
+   repr() in an object column): rows like any other, around the one marker line.  (A vector named
+   '...': the name line is shown.) *)
+Example C20_example_nested_and_dots :
+  let v := mkVec (Some (NStr false true)) (Some (mkD KObject true))
+                 [Some (VVector true); Some (VStr true); Some (VIntLike false); None; Some (VStr true); Some (VVector false)] in
+  well_typed_vec v /\ float_ints_in_range v /\
+  repr_vector 4%Z v =
+    Ret (VRLines true [IRow 0 FmtStr; IRow 1 FmtRepr; IEll; IRow 4 FmtRepr; IRow 5 FmtStr] 6 (mkD KObject true)) /\
+  repr_vector 12%Z v =
+    Ret (VRLines true [IRow 0 FmtStr; IRow 1 FmtRepr; IRow 2 FmtStr; IRow 3 FmtNone; IRow 4 FmtRepr; IRow 5 FmtStr]
+                 6 (mkD KObject true)).
+Proof.
+  cbv zeta. split; [|split].
+  - intros s _. exact I.
+  - intros Hf. discriminate Hf.
+  - vm_compute. split; reflexivity.
+Qed.
+
 Example C20_example_table :
-  let c k n := mkVec (Some (NStr false false)) (Some (mkD k n)) [Some VIntLike; None; Some VIntLike] in
+  let c k n := mkVec (Some (NStr false false)) (Some (mkD k n)) [Some (VIntLike false); None; Some (VIntLike false)] in
   let t := mkTbl (map (fun j => c (if Nat.eqb j 7 then KFloat else KInt) false) (seq 0 12)) (Some 2%Z) in
   rectangular t /\
   repr_table 12%Z t =
@@ -213,3 +206,39 @@ Proof.
   - intros c Hc. simpl in Hc. repeat (destruct Hc as [Hc|Hc]; [subst c; reflexivity|]). destruct Hc.
   - vm_compute. reflexivity.
 Qed.
+
+(* columns NAMED '...' holding cells equal to '...' (and a Vector that is not the first cell):
+   every name has its header cell, every cell its row.  Twelve columns all named '...': eleven
+   name cells would be wrong, the row shows ten names around the one hidden-columns cell. *)
+Example C20_example_dots_table :
+  let dots := Some (NStr false true) in
+  let t := mkTbl [mkVec dots (Some (mkD KObject false)) [Some (VStr true); Some (VVector true); Some (VIntLike false)];
+                  mkVec dots (Some (mkD KStr false)) [Some (VStr true); Some (VStr false); Some (VStr true)]] None in
+  let w := mkTbl (map (fun _ => mkVec dots (Some (mkD KStr false)) [Some (VStr true)]) (seq 0 12)) None in
+  rectangular t /\
+  repr_table 12%Z t =
+    Ret (TRTable (Some [HName 0; HName 1])
+                 (Some [Some (mkD KObject false); Some (mkD KStr false)])
+                 [CItems [IRow 0 FmtRepr; IRow 1 FmtStr; IRow 2 FmtStr]; CItems [IRow 0 FmtStr; IRow 1 FmtStr; IRow 2 FmtStr]]
+                 3 2 FMixed) /\
+  repr_table 12%Z w =
+    Ret (TRTable (Some (map HName [0;1;2;3;4] ++ [HEll] ++ map HName [7;8;9;10;11]))
+                 None
+                 (map (fun _ => CItems [IRow 0 FmtStr]) [0;1;2;3;4] ++ [CDots 1]
+                  ++ map (fun _ => CItems [IRow 0 FmtStr]) [7;8;9;10;11])
+                 1 12 (FOne (mkD KStr false))).
+Proof.
+  cbv zeta. split; [|split].
+  - intros c Hc. simpl in Hc. repeat (destruct Hc as [Hc|Hc]; [subst c; reflexivity|]). destruct Hc.
+  - vm_compute. reflexivity.
+  - vm_compute. reflexivity.
+Qed.
+
+(* a table whose FIRST cell is a non-empty Vector has a third dimension (footer only); an empty
+   Vector there, or a Vector anywhere else, is a cell like any other *)
+Example C20_example_first_cell :
+  let t ne := mkTbl [mkVec None (Some (mkD KObject false)) [Some (VVector ne); Some (VIntLike false)]] None in
+  repr_table 12%Z (t true) = Ret TRTensor /\
+  repr_table 12%Z (t false) =
+    Ret (TRTable None None [CItems [IRow 0 FmtStr; IRow 1 FmtStr]] 2 1 (FOne (mkD KObject false))).
+Proof. cbv zeta. split; vm_compute; reflexivity. Qed.
